@@ -164,6 +164,9 @@ pub struct Model {
     pub memo_live: BTreeMap<(usize, i64), Hid>,
     pub memo_srcs: Vec<Hid>,
     pub memo_held: Vec<bool>,
+    /// for a function memoised inside a bind closure: the top-level memoised function its
+    /// constructor calls (and so keeps alive), if any
+    pub memo_calls_memo: Vec<Option<usize>>,
     /// observers that ever subscribed / unsubscribed / were disallowed or dropped, per node
     pub lifecycle_ops: BTreeMap<Hid, BTreeSet<usize>>,
     /// nodes reachable from the driver's handles when the current stabilise started
@@ -213,6 +216,7 @@ impl Model {
             memo_live: BTreeMap::new(),
             memo_srcs: vec![],
             memo_held: vec![],
+            memo_calls_memo: vec![],
             lifecycle_ops: BTreeMap::new(),
             reach_start: BTreeSet::new(),
             nodes_at_round_start: 0,
@@ -624,6 +628,9 @@ impl Model {
         for (m, held) in self.memo_held.iter().enumerate() {
             if *held {
                 roots.push(self.memo_srcs[m]);
+                if let Some(Some(t)) = self.memo_calls_memo.get(m) {
+                    roots.push(self.memo_srcs[*t]);
+                }
             }
         }
         let mut seen = BTreeSet::new();
